@@ -131,12 +131,14 @@ class Scanner:
     def scan_grammar_doc_inner(self) -> StateFn | None:
         if self.peek() in (" ", "\t"):
             self.next()
+            self.start = self.pos
 
-        if value := self.scan_until(RE_NEWLINE):
-            self.emit(TokenKind.COMMENT_TEXT, value)
-        else:
-            # Empty comment text
-            self.emit(TokenKind.COMMENT_TEXT, "")
+        value = self.scan_until(RE_NEWLINE)
+        if value is None:
+            # The last line of the grammar, without a line break.
+            self.pos = len(self.grammar)
+            value = self.grammar[self.start :]
+        self.emit(TokenKind.COMMENT_TEXT, value)
 
         return self.scan_grammar
 
@@ -187,12 +189,14 @@ class Scanner:
     def scan_rule_doc_inner(self) -> StateFn | None:
         if self.peek() in (" ", "\t"):
             self.next()
+            self.start = self.pos
 
-        if value := self.scan_until(RE_NEWLINE):
-            self.emit(TokenKind.COMMENT_TEXT, value)
-        else:
-            # Empty comment text
-            self.emit(TokenKind.COMMENT_TEXT, "")
+        value = self.scan_until(RE_NEWLINE)
+        if value is None:
+            # The last line of the grammar, without a line break.
+            self.pos = len(self.grammar)
+            value = self.grammar[self.start :]
+        self.emit(TokenKind.COMMENT_TEXT, value)
 
         return self.scan_grammar_rule
 
